@@ -21,4 +21,5 @@ pub mod eng_mem;
 pub mod eng_compfs;
 pub mod eng_rloop;
 pub mod eng_compw;
+pub mod eng_config;
 pub mod alloc;
